@@ -153,6 +153,20 @@ def main(argv=None):
             # a recorded open finding: one short attempt, no retries (it is expected not to discharge)
             r = solve_text(text, ob.clause, min(budget, 6))
             return idx, (r.status, r.backend, r.time, r.detail, r.file)
+        if ob.meta.get("pc_mark") is not None and tier != "thorough":
+            try:
+                with lock:
+                    stext = obligation_smt2(env, ob, sliced=True)
+                rs = solve_text(stext, ob.clause + ".slice", min(budget, 5))
+                if rs.status == "discharged":
+                    return idx, (rs.status, rs.backend, rs.time, rs.detail, rs.file)
+                if rs.file:
+                    try:
+                        os.unlink(rs.file)
+                    except OSError:
+                        pass
+            except Exception:
+                pass
         r = solve_text(text, ob.clause, budget, both=(tier == "thorough"))
         if r.status in ("unknown", "refuted"):
             # `sat` with partially unfolded spec functions is not a counterexample: unfold further and
@@ -166,6 +180,8 @@ def main(argv=None):
                 if text2 == text and r.status == "refuted":
                     break
                 r2 = solve_text(text2, ob.clause, budget * (2 if extra == 1 else 3))
+                if args.v:
+                    print(f"   retry fuel+{extra}: {ob.clause} first={r.status} after {r.time:.1f}s -> {r2.status} {r2.time:.1f}s")
                 if r2.status == "discharged":
                     r = r2
                     break
